@@ -1826,6 +1826,13 @@ impl Db {
 	pub fn add_column(options: &mut Options, new_column_options: ColumnOptions) -> Result<()> {
 		let (salt, version) = Self::precheck_column_operation(options)?;
 
+		// Column ids are `u8`.
+		if options.columns.len() > ColId::MAX as usize {
+			return Err(Error::InvalidConfiguration(format!(
+				"Cannot add a column: the database already has {} columns",
+				options.columns.len()
+			)))
+		}
 		options.columns.push(new_column_options);
 		options.write_metadata_with_version(&options.path, &salt, Some(version))?;
 
@@ -1840,8 +1847,13 @@ impl Db {
 		if nb_column == 0 {
 			return Ok(())
 		}
-		let index = options.columns.len() - 1;
-		Self::remove_column_files(options, index as u8)?;
+		let index = ColId::try_from(options.columns.len() - 1).map_err(|_| {
+			Error::InvalidConfiguration(format!(
+				"Unsupported number of columns: {}",
+				options.columns.len()
+			))
+		})?;
+		Self::remove_column_files(options, index)?;
 		options.columns.pop();
 		options.write_metadata_with_version(&options.path, &salt, Some(version))?;
 		Ok(())
